@@ -173,6 +173,87 @@ def identity_modal_template(rng):
     conc = rng.choice((atom, neg(atom), Fb, dia(Fb), box(Fb), neg(ident), dia(atom)))
     return prems, conc
 
+
+def _deep_kernels():
+    a, b = ('A', 0, 0), ('A', 1, 0)
+    neg = lambda s: ('O', 'Negation', (s,))
+    return [a, neg(a), ('O', 'Conjunction', (a, neg(a))), ('O', 'Disjunction', (a, neg(a))),
+            ('O', 'Conjunction', (a, b)), ('O', 'MaterialConditional', (a, b)), ('O', 'Disjunction', (a, b)),
+            ('O', 'Conjunction', (a, ('O', 'Possibility', (neg(a),))))]
+
+def modal_prefix(code, length, kernel):
+    "Base-3 code -> prefix over (Necessity, Possibility, Negation) of the given length."
+    s = kernel
+    for _ in range(length):
+        s = ('O', ('Necessity', 'Possibility', 'Negation')[code % 3], (s,))
+        code //= 3
+    return s
+
+def deep_modal_template(rng):
+    """One long chain of modal operators over a small kernel (contradiction, tautology, literal):
+    world counts at, just below and just above the projected maximum, closing steps that need a
+    late world's own access pairs."""
+    ks = _deep_kernels()
+    b = ('A', 1, 0)
+    def chain(n, kernel=None):
+        s = kernel or rng.choice(ks)
+        for _ in range(n):
+            r = rng.random()
+            s = ('O', 'Possibility' if r < 0.45 else ('Necessity' if r < 0.92 else 'Negation'), (s,))
+        return s
+    main = chain(rng.choice((3, 4, 4, 5, 5, 6)), rng.choice((ks[2], ks[2], None, None)))
+    prems = [main]
+    if rng.random() < 0.3:
+        prems.append(chain(rng.choice((1, 2, 3))))
+        rng.shuffle(prems)
+    r = rng.random()
+    if r < 0.4:
+        conc = b
+    elif r < 0.8:
+        conc = chain(rng.choice((1, 2, 2, 3)), ks[0] if rng.random() < 0.6 else None)
+    else:
+        # the premise's own chain with one operator changed
+        conc = chain(rng.choice((0, 1)), main[2][0])
+    return prems, conc
+
+def witness_worlds_template(rng):
+    """Quantified sentences and instances of their matrices spread over different worlds: the
+    witness of an existential at one world next to the same predication at another."""
+    F = (rng.randrange(2), 0, 1)
+    m, n = [('c', i, 0) for i in rng.sample(range(4), 2)]
+    x = ('v', rng.randrange(2), 0)
+    Fx = ('P', F, (x,))
+    def neg(s): return ('O', 'Negation', (s,))
+    def dia(s): return ('O', 'Possibility', (s,))
+    def box(s): return ('O', 'Necessity', (s,))
+    def conj(a, b): return ('O', 'Conjunction', (a, b))
+    ex = ('Q', 'Existential', (x[1], 0), Fx)
+    un = ('Q', 'Universal', (x[1], 0), Fx)
+    nex = ('Q', 'Existential', (x[1], 0), neg(Fx))
+    nun = ('Q', 'Universal', (x[1], 0), neg(Fx))
+    Fm, Fn = ('P', F, (m,)), ('P', F, (n,))
+    quants = [ex, un, nex, nun, neg(ex), neg(un)]
+    def mod(s):
+        r = rng.random()
+        return s if r < 0.3 else (dia(s) if r < 0.7 else (box(s) if r < 0.9 else dia(dia(s))))
+    prems = []
+    # an instance at one world
+    prems.append(rng.choice((Fm, Fm, neg(Fm), dia(Fm), box(Fm), box(neg(Fm)))))
+    # quantified sentences meeting at another world
+    q1, q2 = rng.choice(quants), rng.choice(quants)
+    r = rng.random()
+    if r < 0.45:
+        prems.append(dia(conj(q1, q2)))
+    elif r < 0.7:
+        prems.extend([dia(q1), box(q2)])
+    else:
+        prems.extend([mod(q1), mod(q2)])
+    if rng.random() < 0.25:
+        prems.append(rng.choice((Fn, neg(Fn), dia(Fn))))
+    rng.shuffle(prems)
+    conc = rng.choice((('A', 1, 0), ('A', 1, 0), Fn, dia(Fn), mod(rng.choice(quants)), neg(Fm)))
+    return prems, conc
+
 def gen_case(rng, logic, fragment=None, p_example=0.3):
     prof = profile_for(rng, logic, fragment)
     sem = refsem.get(logic)
@@ -180,6 +261,10 @@ def gen_case(rng, logic, fragment=None, p_example=0.3):
         return identity_modal_template(rng)
     if fragment is None and sem.modal and sem.quantified and rng.random() < 0.1:
         return modal_fo_template(rng, identity=sem.classical)
+    if fragment is None and sem.modal and sem.quantified and rng.random() < 0.08:
+        return witness_worlds_template(rng)
+    if fragment in (None, 'modal') and sem.modal and rng.random() < 0.08:
+        return deep_modal_template(rng)
     if fragment in (None, 'modal') and sem.modal and rng.random() < (0.5 if sem.frame == 'D' else 0.3):
         return modal_template(rng)
     if fragment in (None, 'fo') and sem.quantified and rng.random() < 0.15:
